@@ -1,5 +1,6 @@
 """C38 Push transfers complete history and respects update rules (DESIGN.md §4.C38)."""
 import json
+import re
 from vf.core import Suite, coq_list, coq_N, coq_bool, coq_hex
 from vf.gen import pick_weighted
 from props.C37 import World, gen_world, finish_case, coq_store, CaseWorld, reach, ancestors, mutate_tree
@@ -392,7 +393,7 @@ class Main(Suite):
     def finding_class(self, c, reason, reply):
         if reason.startswith("two commands for one reference"):
             return "duplicate-dst"
-        if "applied although not allowed (ff)" in reason and c["shallow"]:
+        if c["shallow"] and re.search(r"applied although not allowed \((ff,)*ff\)", reason):
             return "shallow-assumed-ff"
         if reason.startswith("pack lacks objects") and c["shallow"]:
             return "shallow-as-have"
